@@ -237,6 +237,105 @@ def calibrate():
     return calib.stat_status_roundtrip()
 
 
+LIVE_NAMES = [b"a) R 1 (b", b"x\ny\\z", b"Uid:\t7\t8\t9", b")", b"((", b"Threads:\t99", b"\xff\xfe ok",
+              b"123456789012345", b" lead", b"trail ", b"a b c", b") S 1 2 3 4 5 6", b"ctxt_switches:\t5"]
+
+_CHILD_CODE = r'''
+import ctypes, os, sys, threading, time
+libc = ctypes.CDLL(None)
+names = [bytes.fromhex(x) for x in sys.argv[1].split(",")]
+libc.prctl(15, ctypes.c_char_p(names[0]), 0, 0, 0)
+ev = threading.Event()
+def worker(nm):
+    libc.prctl(15, ctypes.c_char_p(nm), 0, 0, 0)
+    x = 0
+    for i in range(200000): x += i
+    ev.wait()
+ths = [threading.Thread(target=worker, args=(nm,)) for nm in names[1:]]
+for t in ths: t.start()
+sys.stdout.write("ready\n"); sys.stdout.flush()
+sys.stdin.readline()
+ev.set()
+'''
+
+
+def live_tier(tier, seed, stats):
+    """A real child renames itself and its threads to hostile names; psutil's
+    answers are compared with the same /proc text parsed by the model parser
+    (comm between the first '(' and the LAST ')')."""
+    import os
+    import subprocess
+    import sys
+
+    import psutil
+    from vlib import calib
+
+    clk = CLK
+    n = 0
+    for i in range(0, len(LIVE_NAMES), 3):
+        names = LIVE_NAMES[i:i + 3] + [LIVE_NAMES[(i * 7 + 5) % len(LIVE_NAMES)]]
+        child = subprocess.Popen([sys.executable, "-S", "-c", _CHILD_CODE, ",".join(x.hex() for x in names)],
+                                 stdin=subprocess.PIPE, stdout=subprocess.PIPE)
+        try:
+            child.stdout.readline()
+            pid = child.pid
+            case = {"live_names": names}
+            p = psutil.Process(pid)
+            with open(f"/proc/{pid}/stat", "rb") as f:
+                _pid, comm, fld = calib.parse_stat(f.read())
+            with open(f"/proc/{pid}/status", "rb") as f:
+                status = dict(ln.split(b":\t", 1) for ln in f.read().split(b"\n")[1:] if b":\t" in ln)
+            exp_threads = {}
+            for tid in os.listdir(f"/proc/{pid}/task"):
+                with open(f"/proc/{pid}/task/{tid}/stat", "rb") as f:
+                    _t, tcomm, tf = calib.parse_stat(f.read())
+                exp_threads[int(tid)] = (tcomm, int(tf[11]), int(tf[12]))
+            try:
+                got_name = p.name()
+                got_threads = {t.id: t for t in p.threads()}
+                got = dict(ppid=p.ppid(), uids=tuple(p.uids()), gids=tuple(p.gids()),
+                           num_threads=p.num_threads(), status=p.status())
+            except Exception as e:  # noqa: BLE001
+                stats.fail(case, Violation("live-exception", repr(e)))
+                continue
+            want_name = comm.decode("utf-8", "surrogateescape")
+            errs = []
+            if got_name != want_name:
+                errs.append(f"name {got_name!r} != {want_name!r}")
+            if got["ppid"] != int(fld[1]):
+                errs.append(f"ppid {got['ppid']} != {int(fld[1])}")
+            if got["uids"] != tuple(map(int, status[b"Uid"].split()[:3])):
+                errs.append(f"uids {got['uids']} != {status[b'Uid']!r}")
+            if got["gids"] != tuple(map(int, status[b"Gid"].split()[:3])):
+                errs.append(f"gids {got['gids']} != {status[b'Gid']!r}")
+            if got["num_threads"] != int(status[b"Threads"]):
+                errs.append(f"num_threads {got['num_threads']} != {status[b'Threads']!r}")
+            if set(got_threads) != set(exp_threads):
+                errs.append(f"thread ids {sorted(got_threads)} != {sorted(exp_threads)}")
+            else:
+                for tid, (tcomm, ut, st_) in exp_threads.items():
+                    g = got_threads[tid]
+                    # the workers are parked: their counters no longer move
+                    if tid != pid and (abs(g.user_time - ut / clk) > 0.011 or abs(g.system_time - st_ / clk) > 0.011):
+                        errs.append(f"thread {tid} ({tcomm!r}) times {g.user_time},{g.system_time} "
+                                    f"!= {ut}/{clk},{st_}/{clk}")
+            if errs:
+                stats.fail(case, Violation("live-facts", "; ".join(errs)))
+                continue
+            n += 1
+            stats.record(case, Result(["live-child"], "live|" + "|".join(x.hex() for x in names)),
+                         keep_sample=(n == 1))
+        finally:
+            try:
+                child.stdin.write(b"\n")
+                child.stdin.flush()
+            except OSError:
+                pass
+            child.kill()
+            child.wait()
+    stats.notes["live_children_checked"] = n
+
+
 PROP = Property(
     id="C06",
     level="exploration",
@@ -252,6 +351,7 @@ PROP = Property(
     run_case=run_case,
     budgets={"quick": 16000, "thorough": 480000},
     calibrate=calibrate,
+    extra_tiers=[("live", live_tier)],
     assumptions=[
         "vlib.simk renders stat/status as proc(5) and fs/proc/array.c "
         "describe them; the renderer is calibrated against the live kernel "
